@@ -130,6 +130,26 @@ def run(ch: Choices, focus: str = "C01", params: Optional[dict] = None) -> dict:
                 res = run_one(ch, focus, pm, cfg, mode, policy, ref, out)
             if pat is not None:
                 out["faults"]["dirty-allocator"] += 1
+            if focus == "C10" and cfg["cons"] == 1 and mode[0] != "partial" and not out.get("_last", {}).get("crashed"):
+                # last clause of C10: the same solver with plain bound consistency instead of shaving (same
+                # heuristics, same call) must enumerate the same solutions / reach the same optimum
+                a = out.pop("_last")
+                scratch = {"violations": [], "probes": Counter(), "faults": Counter(), "steps": 0}
+                with ch.scope("bc"):
+                    run_one(ch, "C10", pm, dict(cfg, cons=0), mode, "native", ref, scratch)
+                b = scratch.pop("_last", {})
+                out["steps"] += scratch["steps"]
+                out["probes"]["shaving_solver_vs_bc_solver"] += 1
+                if not b.get("crashed") and not any(v["property"] in ("C01", "C02", "C03") for v in scratch["violations"]):
+                    cx = f"[{gen.render_model(pm)} var_h={cfg['var_h']} dom_h={cfg['dom_h']} {mode}] "
+                    if mode[0] == "find_all" and sorted(a["sols"]) != sorted(b["sols"]):
+                        sa, sb = sorted(a["sols"]), sorted(b["sols"])
+                        out["violations"].append({"property": "C10", "oracle": "shaving-solver-differs-from-bc-solver", "message": cx + f"with shaving {len(sa)} solutions, with plain bound consistency {len(sb)}; only with shaving {[x for x in sa if x not in sb][:3]}, only with bound consistency {[x for x in sb if x not in sa][:3]}"})
+                    elif mode[0] != "find_all":
+                        va = None if a["result"] is None else a["result"][mode[1]]
+                        vb = None if b["result"] is None else b["result"][mode[1]]
+                        if va != vb:
+                            out["violations"].append({"property": "C10", "oracle": "shaving-optimum-differs-from-bc-optimum", "message": cx + f"optimum with shaving {va}, with plain bound consistency {vb}"})
         configs.append({"cfg": [cfg["cons"], cfg["var_h"], cfg["dom_h"]], "order": order, "mode": mode, "policy": policy,
                         "alloc": pat if not isinstance(pat, tuple) else list(pat)})
         h.append(res)
